@@ -3,6 +3,7 @@ package main
 import (
 	"encoding/binary"
 	"fmt"
+	"os"
 	"time"
 
 	enc "github.com/named-data/ndnd/std/encoding"
@@ -82,6 +83,17 @@ func (e *hEngine) Express(interest *ndn.EncodedInterest, cb ndn.ExpressCallbackF
 	pi, _, err := spec.Spec{}.ReadInterest(enc.NewBufferReader(r.wire))
 	if err != nil {
 		panic(fmt.Sprintf("Interest %s expressed by the client does not parse: %v", r.nameS, err))
+	}
+	// wire-level oracle: the Interest that discovers the newest version must ask for fresh data and
+	// allow a longer name; otherwise any cache on the path may answer with the metadata of an old
+	// version for as long as it keeps it ("the consumer obtains the newest" is then unattainable)
+	if len(n) > 0 && n[len(n)-1].Typ == enc.TypeKeywordNameComponent && string(n[len(n)-1].Val) == "metadata" && os.Getenv("C15_NOWIRE") == "" { // C15_NOWIRE: development aid to exercise the cache oracle alone
+		if !pi.MustBeFresh() {
+			e.in.bad("C15.newest", "metadata Interest on the wire does not carry MustBeFresh", fmt.Sprintf("Interest %s expressed with MustBeFresh=false CanBePrefix=%v: a content store on the path may answer it with stale metadata of an older version", r.nameS, pi.CanBePrefix()))
+		}
+		if !pi.CanBePrefix() {
+			e.in.bad("C15.newest", "metadata Interest on the wire does not carry CanBePrefix", fmt.Sprintf("Interest %s cannot match %s/<version>/<segment>", r.nameS, r.nameS))
+		}
 	}
 	if nv := pi.Nonce(); nv == nil {
 		r.flying, r.dup = false, true
